@@ -399,15 +399,27 @@ class FirstMatch(_Bodies):
 
     def __init__(self):
         self.fn = []
+        self.loops = 0
 
     def visit_FunctionDef(self, node):
         self.fn.append(node)
+        saved, self.loops = self.loops, 0
         try:
             return self._do(node)
         finally:
             self.fn.pop()
+            self.loops = saved
 
     visit_AsyncFunctionDef = visit_FunctionDef
+
+    def visit_For(self, node):
+        self.loops += 1
+        try:
+            return self._do(node)
+        finally:
+            self.loops -= 1
+
+    visit_While = visit_AsyncFor = visit_For
 
     def process(self, body):
         out = []
@@ -419,7 +431,16 @@ class FirstMatch(_Bodies):
                 ge, gen, tname = v.args[0], v.args[0].generators[0], st.targets[0].id
                 bound = {y.id for y in ast.walk(gen.target) if isinstance(y, ast.Name)}
                 inside = {id(y) for y in ast.walk(ge)}
-                leaks = any(isinstance(y, ast.Name) and y.id in bound and id(y) not in inside for y in ast.walk(self.fn[-1]))
+                outside = [y for y in ast.walk(self.fn[-1]) if isinstance(y, ast.Name) and y.id in bound and id(y) not in inside]
+                leaks = bool(outside)
+                if leaks and not self.loops:
+                    # the function has variables of the same names, but (outside any loop) they are all assigned after this
+                    # statement before they are read: what the unrolled loop leaves in them is never seen
+                    after = all((y.lineno, y.col_offset) > (st.end_lineno, st.end_col_offset) for y in outside)
+                    first = {}
+                    for y in sorted(outside, key=lambda y: (y.lineno, y.col_offset)):
+                        first.setdefault(y.id, y)
+                    leaks = not (after and all(isinstance(y.ctx, ast.Store) for y in first.values()))
                 mentions = any(isinstance(y, ast.Name) and y.id == tname for y in ast.walk(ge))
                 if not leaks and not mentions and tname not in bound:
                     hit = [_loc(ast.Assign(targets=[ast.Name(id=tname, ctx=ast.Store())], value=ge.elt), st), _loc(ast.Break(), st)]
